@@ -100,6 +100,10 @@ ABTU_ret_err static int id_list_add(alloc_list *p_alloc_list,
 {
     /* Needs to add num ids. */
     uint32_t i;
+    /* All the ids must be representable (the last one is the extreme). */
+    int64_t last_id = (int64_t)id + (int64_t)stride * (int64_t)(num - 1);
+    if (num == 0 || last_id > INT_MAX || last_id < INT_MIN)
+        return ABT_ERR_OTHER;
     int ret = list_realloc(p_alloc_list, sizeof(int) * p_id_list->num,
                            sizeof(int) * (p_id_list->num + num),
                            (void **)&p_id_list->ids);
@@ -126,6 +130,16 @@ ABTU_ret_err static int list_add(alloc_list *p_alloc_list,
     /* Needs to add num id-lists. */
     uint32_t i, j;
     int ret;
+
+    /* All the ids must be representable (the last list is the extreme). */
+    if (num == 0)
+        return ABT_ERR_OTHER;
+    for (j = 0; j < p_base->num; j++) {
+        int64_t last_id =
+            (int64_t)p_base->ids[j] + (int64_t)stride * (int64_t)(num - 1);
+        if (last_id > INT_MAX || last_id < INT_MIN)
+            return ABT_ERR_OTHER;
+    }
 
     ret = list_realloc(p_alloc_list,
                        sizeof(ABTD_affinity_id_list *) * p_list->num,
@@ -174,6 +188,10 @@ static int consume_int(const char *str, uint32_t *p_index, int *p_val)
         } else if ('0' <= c && c <= '9') {
             /* Value. */
             flag = 'v';
+            if (val > (INT_MAX - (int)(c - '0')) / 10) {
+                /* Failed.  The value does not fit in int. */
+                return 0;
+            }
             val = val * 10 + (int)(c - '0');
         } else {
             /* Encounters a symbol. */
